@@ -356,10 +356,11 @@ def apply_rules(piece, typemap=None, subs=(), must_fire=(), drop=(), keep_this=F
         if r not in fired:
             raise ExtractionError("%s:%d: must-fire rule %s did not fire" % (piece.relpath, piece.line_start, r))
     # residual C++-only tokens
+    t_chk = strip_comments(re.sub(r'"(?:[^"\\]|\\.)*"', '""', t))   # residual check ignores comments and string literals
     resid = re.search(r'::|\btemplate\b|\bauto\b|\bnew\b|\bdelete\b|\bthrow\b|\btry\b|\bcatch\b|\bstd\b|(?<![\w\)\]])\[[^\[\]]*\]\s*[\(\{]|\busing\b|\bthis\b' if not keep_this else
-                      r'::|\btemplate\b|\bauto\b|\bnew\b|\bdelete\b|\bthrow\b|\btry\b|\bcatch\b|\bstd\b|(?<![\w\)\]])\[[^\[\]]*\]\s*[\(\{]|\busing\b', t)
+                      r'::|\btemplate\b|\bauto\b|\bnew\b|\bdelete\b|\bthrow\b|\btry\b|\bcatch\b|\bstd\b|(?<![\w\)\]])\[[^\[\]]*\]\s*[\(\{]|\busing\b', t_chk)
     if resid:
-        ln = piece.line_start + t.count('\n', 0, resid.start())
+        ln = piece.line_start + t_chk.count('\n', 0, resid.start())
         raise ExtractionError("%s:~%d: C++-only token %r left after rewriting" % (piece.relpath, ln, resid.group()))
     piece.rules = sorted(fired.items())
     return t
